@@ -204,3 +204,4 @@ Definition all_digits (ds : str) : Prop := forallb is_digit ds = true.
 Require Import Coq.Strings.String Coq.Strings.Ascii.
 Fixpoint lit (s : string) : str :=
   match s with EmptyString => [] | String a r => N_of_ascii a :: lit r end.
+Arguments lit s%string_scope.
